@@ -289,7 +289,17 @@ pub fn run_history_on(vd: &VerifDirectory, existing: Option<Index>, ops: &[Op], 
                     let r = w.garbage_collect_files().wait();
                     let ok = obs!(i, "gc", r);
                     if ok && always_no_merge && i > 0 && ops[i - 1] == Op::Commit && res.api.iter().rev().nth(1).map(|a| a.what == "commit" && a.ok && a.op_index == i - 1).unwrap_or(false) {
-                        res.probes.push((i, dir_state(vd)));
+                        // (a writer dropped earlier in the history may still be tearing down its updater: repeat the
+                        //  collection a few times before the caller calls a file an orphan)
+                        let mut st = dir_state(vd);
+                        let mut retries = 0;
+                        while retries < 5 && st.0.iter().any(|f| !st.2.contains(f)) {
+                            std::thread::sleep(std::time::Duration::from_millis(120));
+                            let _ = w.garbage_collect_files().wait();
+                            st = dir_state(vd);
+                            retries += 1;
+                        }
+                        res.probes.push((i, st));
                     }
                 }
                 Op::SetPolicy(p) => {
